@@ -11,7 +11,7 @@
 From Coq Require Import String List ZArith NArith Bool.
 Import ListNotations.
 From Selfies Require Import Base Generated Lex Atoms Grammar Decoder StateFacts IndexSpec IndexCode Reader DocGrammar DecoderBasics
-  CompatFacts DecoderInv DecoderTree DecoderSum TokFacts DeriveOk WriterSim WriterFinal RingCount CompatTotal.
+  CompatFacts DecoderInv DecoderTree DecoderSum TokFacts DeriveOk WriterSim WriterFinal RingCount CompatTotal WfSpec NopFacts DocFinal.
 Local Open Scope string_scope.
 Local Open Scope Z_scope.
 
@@ -73,6 +73,36 @@ Proof.
   destruct (printed_reads T m HG HT Hr' out maps E) as (ord & A & B & C). exists m, ord. auto.
 Qed.
 
+(* ---------- the property itself ----------
+   For every table with '?', every well-formed string (fragments of bracketed symbols joined by single dots) whose
+   symbols are within the interpreter's int() digit limit and which has fewer than 100 ring symbols: if the decoder
+   returns a string, then the documented derivation (spec/DocGrammar.v, written from docs/source/derivation.rst
+   independently of decoder.py) assigns a molecule g to the same symbols, and the molecule the independent reader
+   reads from the decoder's output is g with its atoms listed in the order ord in which the writer emitted them
+   (a permutation of the atoms; neighbour lists, bond orders, cis/trans marks and ring flags carried over). *)
+Theorem C02_decoder_refines_grammar : forall T (frs : list (list item)) attribute out maps,
+  (exists c, assoc (lit "?") T = Some c) -> frs <> [] -> Forall wfd frs ->
+  symbols_short (render_frags frs) -> (ring_symbol_count (render_frags frs) false < 100)%nat ->
+  decoder T (render_frags frs) false attribute = Ok (out, maps) ->
+  exists g ord, grammar_eval T (dtoks frs) = Ok g /\ NoDup ord /\ (forall j, In j ord <-> (j < length (sm_atoms g))%nat) /\
+                read_smiles out = Some (relabel ord g).
+Proof. exact decoder_refines_grammar. Qed.
+
+(* non-vacuity: a two-fragment string with a branch, rings, a clipped bond and a [nop] *)
+Example C02_refines_example :
+  let frs := [[(lit "C", false); (lit "=C", false); (lit "Branch1", false); (lit "C", false); (lit "=O", false); (lit "nop", false);
+               (lit "C", false); (lit "=C", false); (lit "Ring1", false); (lit "Branch1", false); (lit "#N", false)];
+              [(lit "13CH2-1", false); (lit "Ring1", false); (lit "C", false)]] in
+  Forall wfd frs /\
+  (exists out maps, decoder default_constraints (render_frags frs) false true = Ok (out, maps)) /\
+  (exists g, grammar_eval default_constraints (dtoks frs) = Ok g /\ length (sm_atoms g) = 7%nat).
+Proof.
+  split; [|split].
+  - repeat constructor.
+  - eexists. eexists. vm_compute. reflexivity.
+  - eexists. split; vm_compute; reflexivity.
+Qed.
+
 (* every rejection is a DecoderError ... *)
 Theorem C02_rejection_is_decoder_error_partial : forall T s compat attribute e,
   (exists c, assoc (lit "?") T = Some c) -> symbols_short s ->
@@ -97,6 +127,7 @@ Proof. exact derive_rejects. Qed.
 
 Print Assumptions C02_atom_rule_partial.
 Print Assumptions C02_output_denotes_graph_partial.
+Print Assumptions C02_decoder_refines_grammar.
 Print Assumptions C02_rejection_is_decoder_error_partial.
 Print Assumptions C02_grammar_strings_accepted_partial.
 Print Assumptions C02_reached_unknown_symbol_rejected_partial.
